@@ -95,7 +95,7 @@ def render(t, rng, parent_prec=99, side="l", start=True):
     force = False
     if k == "lit":
         v = t[1]
-        s = num(v, rng)
+        s = num(v, rng, chars=False)
         if v < 0 and parent_prec < 99 and rng.random() < 0.5:
             s = bracket(s, rng)
         out, prec = s, 0
